@@ -259,22 +259,9 @@ def model_request(req_, impl):
                                             1 if a.get("dconv") == "UTF-8" else 0, dec)
 
 
-G3_CLASS = "G3: no signature, not forced, 0 <= prefer_cif2 < 20, the input starts with #\\#CIF_2.0 followed by a non-blank"
-G4_CLASS = "G4: no signature, not forced, CIF 1.1 selected, default_encoding_name given"
-
-
 def finding_class(req_, impl, model, why):
-    if impl.startswith(("SAN:", "CRASH:", "TIMEOUT")) or not why:
-        return None
-    prefer, force, enc, sig, dflt, text = parse_req(req_)
-    if force or has_signature(enc, sig, text):
-        return None
-    a = _kv(impl)
-    if (why.startswith("parsed as CIF 2, documented: CIF 1") and 0 <= prefer < 20 and enc not in WIDE
-            and text.startswith(MAGIC2) and len(text) > 10 and text[10] not in " \t\r\n"):
-        return G3_CLASS
-    if why.startswith("input read through") and dflt != "~" and a.get("ver") == "1" and a.get("enc") == "~":
-        return G4_CLASS
+    # no open finding.  Repaired: G3 (raw magic test ignored the byte after the magic code; /repo c96f901),
+    # G4 (default_encoding_name ignored unless forced; /repo a4ae335)
     return None
 
 
